@@ -15,7 +15,8 @@ RULE = ("random PWLCalibration layers (2-6 strictly increasing dyadic keypoints 
         "with learned or fixed missing output, tensor and list input forms, 'fixed' keypoints in float64 and - about "
         "a fifth of them, ~10% of all cases, class suffix _f32 - in float32, the layer's DEFAULT dtype (kernel "
         "magnitude 4, no 2^-22 keypoint gap, tolerance 1e-5), "
-        "'learned_interior' keypoints (initial and assigned logits) in float32, dyadic kernels of five classes) "
+        "'learned_interior' keypoints (initial and assigned logits in +-1.5; float64 layers: four in ten assigned logit "
+        "sets in +-6, class suffix _wide) in float32 / float64, dyadic kernels of five classes) "
         "called on a batch mixing inputs ON keypoints, between, just/far outside (up to +-1e6), equal to "
         "missing_input_value; rejected calls (ValueError on the layer, None in the model): [x, is_missing] or [x] "
         "without impute_missing, impute_missing without a source, wrong input columns, and an is_missing tensor "
@@ -45,7 +46,9 @@ TRUSTED = [
 ]
 LIMITS = [
     "float softmax underflow to a zero-length segment (0/0 exactly at that keypoint) is outside the model "
-    "(generated logits keep every segment >= 1% of the range)",
+    "(generated logits keep every segment >= 1% of the range in float32 and >= ~6e-6 of it - logits in +-6 - in "
+    "float64; for those _wide cases the Python-side tolerance grows with ulp(keypoint)/shortest segment, the "
+    "in-Coq comparison keeps 1e-9)",
     "PWLCalibration(input_keypoints_type='learned_interior', dtype='float64') cannot be called at all on the "
     "current tree (compute_interpolation_weights concatenates a float32 tf.ones column with float64 weights); the "
     "learned path is then tied in float32 with tolerance 1e-5 (measured error <= 1e-6); once float64 works the "
@@ -124,8 +127,13 @@ def _gen_pwl(rng):
     form = "list2"
   ldtype = rng.choice(["float64", "float64", "float32"]) if learned else ("float32" if fixed32 else "float64")
   logits = None
+  wide = False
   if learned and rng.random() < 0.7:
-    logits = [[tfimpl.dy(rng, -1.5, 1.5, 4) for _ in range(n - 1)] for _ in range(units)]
+    # float64 layers: four in ten draw the logits from +-6 (softmax entries down to ~6e-6, segments down to that
+    # share of the keypoint range); float32 layers and the rest stay in +-1.5
+    wide = ldtype == "float64" and rng.random() < 0.4
+    lim = 6.0 if wide else 1.5
+    logits = [[tfimpl.dy(rng, -lim, lim, 4) for _ in range(n - 1)] for _ in range(units)]
   # inputs (symbolic where they refer to keypoints; resolved against the layer's own keypoints)
   batch = rng.randint(5, 8)
   rows = []
@@ -157,7 +165,7 @@ def _gen_pwl(rng):
           for _ in range(batch)]
   d = dict(kind="pwl", learned=learned, ks=ks, units=units, cols=cols, cyclic=cyclic, kernel=kernel,
            impute=impute, miv=miv, mov=mov, mow=mow, split=split, form=form, logits=logits, dtype=ldtype,
-           rows=rows, ms=ms, kclass=klass, err=None)
+           rows=rows, ms=ms, kclass=klass, err=None, wide=wide)
   # a few rejected calls (fixed keypoints only)
   if not learned and rng.random() < 0.12:
     e = rng.choice(["flag_without_impute", "impute_without_source", "bad_cols", "ms_wrong_cols", "ms_wrong_cols",
@@ -303,6 +311,7 @@ def _eval_pwl(tf, tfl, d):
   # for a cyclic closing height): up to ~8e-4. The in-Coq comparison works stage-wise and keeps 1e-5.
   # Fixed keypoints are exact in float32 (multiples of 1/4): only the arithmetic of the call rounds, 1e-5 relative.
   tol = (Fraction(5, 1000) if learned else Fraction(1, 10**5)) if f32 else Fraction(1, 10**9)
+  wide = bool(d.get("wide")) and not f32
   layer = tfl.layers.PWLCalibration(
       input_keypoints=d["ks"], units=units, dtype="float32" if f32 else "float64",
       is_cyclic=d["cyclic"], impute_missing=d["impute"], missing_input_value=d["miv"],
@@ -318,6 +327,14 @@ def _eval_pwl(tf, tfl, d):
   kp_in = layer.keypoints_inputs().numpy()    # [n, units]
   kp_out = layer.keypoints_outputs().numpy()  # [n, units]
   fail = None
+  if wide:
+    # float64 with logits in +-6: the reference below is rebuilt from the REPORTED keypoints, whose rounding (an
+    # ulp of the largest keypoint) is amplified by 1/length of the shortest segment times the largest height
+    gaps = np.diff(kp_in.astype(np.float64), axis=0)
+    if gaps.size and gaps.min() > 0:
+      hmax = max(1.0, float(np.abs(np.array(d["kernel"])[1:]).sum(axis=0).max()) if len(d["kernel"]) > 1 else 1.0)
+      amp = 8 * 2.0 ** -52 * max(1.0, float(np.abs(kp_in).max())) / float(gaps.min()) * hmax
+      tol = max(tol, frac(float(2.0 ** np.ceil(np.log2(amp)))))
   if layer.kernel.dtype.base_dtype.name != np.dtype(dt).name or kp_out.dtype != np.dtype(dt):
     fail = "layer built with dtype=%s has a %s kernel and reports %s keypoint outputs" % (
         np.dtype(dt).name, layer.kernel.dtype.base_dtype.name, kp_out.dtype.name)
@@ -396,6 +413,42 @@ def _eval_pwl(tf, tfl, d):
           if not _close(full[b][u], ref, tol):
             fail = "%s: unit %d input %r: layer returned %r, formula gives %r" % (
                 clause, u, float(x[b][c]), full[b][u], float(ref))
+  # ---- "hence monotone / bounded at every input": direct clauses on the implementation's outputs ----
+  if out is not None and fail is None:
+    def flag(b, c):
+      """is_missing weight of entry (b, c): None when it is outside [0, 1] (the clause does not speak about it)."""
+      if not d["impute"]:
+        return Fraction(0)
+      if d["ms"] is not None:
+        m = frac(d["ms"][b][c])
+        return m if 0 <= m <= 1 else None
+      return Fraction(1) if frac(x[b][c]) == frac(d["miv"]) else Fraction(0)
+    for u in range(units):
+      c = u if cols > 1 else 0
+      ys = ys_u[u]
+      inc = all(ys[j] <= ys[j + 1] for j in range(len(ys) - 1))
+      dec = all(ys[j] >= ys[j + 1] for j in range(len(ys) - 1))
+      lo, hi = min(ys), max(ys)
+      for b in range(len(x)):
+        m = flag(b, c)
+        if m is None:
+          continue
+        blo, bhi = (min(lo, mo[u]), max(hi, mo[u])) if m > 0 else (lo, hi)
+        if not blo - tol * max(1, abs(blo)) <= _fr(full[b][u]) <= bhi + tol * max(1, abs(bhi)):
+          fail = ("keypoint outputs%s of unit %d lie in [%r, %r] but the layer returns %r at input %r (is_missing "
+                  "weight %r)" % (" and missing output" if m > 0 else "", u, float(blo), float(bhi), full[b][u],
+                                  float(x[b][c]), float(m)))
+      if inc or dec:
+        live = [b for b in range(len(x)) if flag(b, c) == 0]
+        for b1 in live:
+          for b2 in live:
+            if x[b1][c] <= x[b2][c]:
+              y1, y2 = _fr(full[b1][u]), _fr(full[b2][u])
+              slack = tol * max(1, abs(y1))
+              if (inc and y2 < y1 - slack) or (dec and y2 > y1 + slack):
+                fail = ("keypoint outputs of unit %d are non-%s but the layer output goes from %r to %r between the "
+                        "non-missing inputs %r and %r" % (u, "decreasing" if inc else "increasing", full[b1][u],
+                                                          full[b2][u], float(x[b1][c]), float(x[b2][c])))
   # reported keypoints
   if fail is None:
     if not learned:
@@ -429,6 +482,11 @@ def _eval_pwl(tf, tfl, d):
             if not _close(full[j][u], frac(kp_out[j][u]), tol):
               fail = "reported point (%r, %r) of unit %d is not on the graph: layer returns %r" % (
                   kp_in[j][u], kp_out[j][u], u, full[j][u])
+        if d["cyclic"] and fail is None:
+          for u in range(units):
+            if not _close(full[0][u], frac(full[n - 1][u]), tol):
+              fail = "is_cyclic: unit %d returns %r at the first keypoint %r but %r at the last keypoint %r" % (
+                  u, full[0][u], kp_in[0][u], full[n - 1][u], kp_in[n - 1][u])
     except Exception as e:  # pylint: disable=broad-except
       fail = "call on keypoints_inputs() raised %s: %s" % (type(e).__name__, str(e)[:200])
 
@@ -463,6 +521,8 @@ def _eval_pwl(tf, tfl, d):
         "_1e6" if np.abs(x).max() >= 1e5 else "")
   if f32 and not learned:
     klass += "_f32"
+  if wide and not d["err"]:
+    klass += "_wide"
   return Case(d, coq=coq, pred_fail=fail, nontrivial=(between or n >= 3) and d["err"] is None, klass=klass,
               info={"impl_output": out, "inputs": x.tolist(), "keypoints_inputs": kp_in.tolist(),
                     "keypoints_outputs": kp_out.tolist()})
@@ -499,6 +559,29 @@ def _eval_cat(tf, tfl, d):
             continue
           if full[b][u] != want:
             fail = "%s: unit %d input %r: layer returned %r, kernel has %r" % (clause, u, v, full[b][u], want)
+      # "hence monotone / bounded": bucket values in range => output in range; bucket values ordered along the
+      # pair of buckets two inputs select (default_input_value selects the last bucket) => outputs ordered
+      def bucket(v):
+        i = int(v)
+        if d["default"] is not None and i == int(d["default"]):
+          return nb - 1
+        return i if 0 <= i < nb else None
+      for u in range(units):
+        if fail is not None:
+          break
+        col = [d["kernel"][k][u] for k in range(nb)]
+        sel = [(b, bucket(d["rows"][b][u if cols > 1 else 0])) for b in range(len(x))]
+        sel = [(b, k) for b, k in sel if k is not None]
+        for b, k in sel:
+          if not min(col) <= full[b][u] <= max(col):
+            fail = "bucket values of unit %d lie in [%r, %r] but the layer returns %r for input %r" % (
+                u, min(col), max(col), full[b][u], d["rows"][b][u if cols > 1 else 0])
+        for b1, k1 in sel:
+          for b2, k2 in sel:
+            if col[k1] <= col[k2] and full[b1][u] > full[b2][u]:
+              fail = ("bucket values of unit %d are ordered along the pair (%d, %d): %r <= %r, but the outputs for "
+                      "inputs %r and %r are %r > %r" % (u, k1, k2, col[k1], col[k2], d["rows"][b1][u if cols > 1 else 0],
+                                                        d["rows"][b2][u if cols > 1 else 0], full[b1][u], full[b2][u]))
   coq = None
   if out is not None:
     coq = "Cat %s %s %s %s %s %s %s" % (
